@@ -132,6 +132,8 @@ func runC03(r *Run) {
 	if r.Want("yields") {
 		c02Yields(r)
 	}
+	// a stream whose status trailer was read before the connection failed: the caller gets that status (c02b.go)
+	c02CompletedThenConnFailWith(r, true)
 	// a call abandoned with unread envelopes, then the next call: its outcome is its own handler's (c05b.go)
 	if r.Want("backlog") {
 		c05Backlog(r)
